@@ -275,6 +275,9 @@ func (t *Tree) RemoveTips(revert bool, names ...string) error {
 			}
 		}
 	}
+	if err := t.UpdateTipIndex(); err != nil {
+		return err
+	}
 	t.ReinitInternalIndexes()
 	return nil
 }
